@@ -27,6 +27,11 @@ def items(tier, seed):
             out.append(("ap-%d-%s" % (n, case), {"n": n, "case": case, "cls": "ap"}))
         out.append(("other-%d" % n, {"n": n, "case": "mixed", "cls": "other"}))
     out.append(("allcall", {"n": 56, "case": "mixed", "cls": "allcall"}))
+    # history: the integrity check (crc) or an address recovery on an earlier frame, then the address of this frame
+    for n in (56, 112):
+        out.append(("ap-%d-after-crc" % n, {"n": n, "case": "mixed", "cls": "ap", "after": "crc", "fresh": []}))
+        out.append(("ap-%d-after-icao" % n, {"n": n, "case": "mixed", "cls": "ap", "after": "icao", "fresh": ["payload"]}))
+    out.append(("aa-112-after-icao", {"n": 112, "case": "mixed", "cls": "aa", "after": "icao", "fresh": ["A", "DF"]}))
     return out
 
 
@@ -79,6 +84,16 @@ def run_item(item):
             post = lambda k, v: k == "ret" and v is None
         else:
             post = lambda k, v: k == "ret" and H.str_eq(v, want)
+        if prm.get("after"):
+            if short != "common.icao":
+                continue
+            fr0 = H.sibling(fr, prm["fresh"])
+            item.declare(fr0)
+            ppath = "pyModeS.common." + prm["after"]
+            g = getattr(pm.common, prm["after"])
+            H.decide_after(item, "%s:%s after %s" % (short, cls, prm["after"]), fr, fr0, [(ppath, lambda: g(fr0.msg))],
+                           lambda: f(fr.msg), path, post)
+            continue
         H.decide(item, "%s:%s" % (short, cls), lambda: f(fr.msg), lambda c: H.real_call(path, c["msg"]), conc, post)
     item.sat_witness("class-nonempty", [])
 
